@@ -164,6 +164,28 @@ CLAIMED = {
                      "read-before-store over a two-call sequence, pairing check of dump/load sites",
         "design_ref": "DESIGN.md section 3, C14",
     },
+    "C16": {
+        "text": "Decides structural clauses D1-D5 of C16: the full R matrices are filled with mirrored stores in their triangular loops; "
+                "lambda enters the full matrices only on the diagonal, once per entry and after the plain store; every path through the "
+                "right-hand-side builders scales each entry by 1/len(data) exactly once (whole-vector scaling vs. the reuse branch's "
+                "per-entry scaling); at every accumulation the sign factor is the class label of the very sample being evaluated; the "
+                "normalising division is guarded by a non-zero test and uses the clipped values. The Gram entries, definiteness and "
+                "the agreement of the hat evaluations are numerical and NOT decided; nothing is claimed for the mass-lumped forms.",
+        "technique": "paired-store check in triangular loops, guard analysis of lambda uses, exactly-once path argument on the CFG, "
+                     "same-index (parallel array) checks, guarded-division check",
+        "design_ref": "DESIGN.md section 3, C16",
+    },
+    "C17": {
+        "text": "Decides only the structural clauses of C17: (D1) the matrix-entry cache stores the lambda-free value computed for the very "
+                "(i, j) pair its key was computed for, and a hit is read under the membership test of the same key and flows into the "
+                "same mirrored stores as a fresh value; (D2) an old right-hand-side entry is copied only for a point of the old grid "
+                "whose support domain matched in both ends and all dimensions, from the matched position; (D3) the hand-over empties the "
+                "old caches, refills them from all of the new ones under the same keys and restarts the new ones. Equality of results "
+                "with reuse on/off and small-grid vs large-grid equality are NOT decided.",
+        "technique": "dominance + value-term checks around the cache store/read, guard-set and index checks of the copy, hand-over "
+                     "assignment ordering on the CFG",
+        "design_ref": "DESIGN.md section 3, C17",
+    },
     "C18": {
         "text": "Decides structural clauses D1-D4 of C18 on DataSet: the refusal in concatenate must depend on the other set's scaling "
                 "(violated today: recorded known finding), every scaling attribute written by the scaling methods is carried by "
